@@ -477,42 +477,42 @@ theorem skipToEnd_length (p : List Act) : (skipToEnd p).length ≤ p.length := b
 theorem doAct_cases (s : State) (l : Nat) (lp : Loop) (act : Act) (rest : List Act) (s' : State)
     (h : doAct s l lp act rest = some s') (hnr : act ≠ .replace) :
     s'.current = s.current ∧ s'.nloops = s.nloops ∧ s'.closed = s.closed ∧
-    ((∃ lp', s'.loops = (fun i => if i = l then some lp' else s.loops i) ∧ lp'.pc = lp.pc ∧
+    ((∃ lp', s'.loops = (fun i => if i = l then some lp' else s.loops i) ∧ lp'.pc = lp.pc ∧ lp'.cur = lp.cur ∧
         (lp'.prog = rest ∨ (lp'.prog = skipToEnd rest ∧ ((∃ c b, act = .wait c b) ∨ ∃ key n, act = .acquire key (n + 1))))) ∨
      (s'.loops = s.loops ∧ ∃ key n, act = .acquire key (n + 1))) := by
   cases act with
   | replace => exact absurd rfl hnr
   | startCall k dur =>
     simp only [doAct, Option.some.injEq] at h; subst h
-    exact ⟨rfl, rfl, rfl, Or.inl ⟨_, rfl, rfl, Or.inl rfl⟩⟩
+    exact ⟨rfl, rfl, rfl, Or.inl ⟨_, rfl, rfl, rfl, Or.inl rfl⟩⟩
   | acquire key limit =>
     simp only [doAct] at h
     split at h
-    · cases h; exact ⟨rfl, rfl, rfl, Or.inl ⟨_, rfl, rfl, Or.inl rfl⟩⟩
+    · cases h; exact ⟨rfl, rfl, rfl, Or.inl ⟨_, rfl, rfl, rfl, Or.inl rfl⟩⟩
     · rename_i hl0
       obtain ⟨n, hn⟩ : ∃ n, limit = n + 1 := ⟨limit - 1, by omega⟩
       split at h
       · cases h; exact ⟨rfl, rfl, rfl, Or.inr ⟨rfl, key, n, by rw [hn]⟩⟩
       · split at h
-        · cases h; exact ⟨rfl, rfl, rfl, Or.inl ⟨_, rfl, rfl, Or.inl rfl⟩⟩
+        · cases h; exact ⟨rfl, rfl, rfl, Or.inl ⟨_, rfl, rfl, rfl, Or.inl rfl⟩⟩
         · split at h
-          · cases h; exact ⟨rfl, rfl, rfl, Or.inl ⟨_, rfl, rfl, Or.inr ⟨rfl, Or.inr ⟨key, n, by rw [hn]⟩⟩⟩⟩
+          · cases h; exact ⟨rfl, rfl, rfl, Or.inl ⟨_, rfl, rfl, rfl, Or.inr ⟨rfl, Or.inr ⟨key, n, by rw [hn]⟩⟩⟩⟩
           · cases h
   | send k =>
     simp only [doAct, Option.some.injEq] at h; subst h
-    exact ⟨rfl, rfl, rfl, Or.inl ⟨_, rfl, rfl, Or.inl rfl⟩⟩
+    exact ⟨rfl, rfl, rfl, Or.inl ⟨_, rfl, rfl, rfl, Or.inl rfl⟩⟩
   | wait c onClose =>
     simp only [doAct] at h
     split at h
-    · cases h; exact ⟨rfl, rfl, rfl, Or.inl ⟨_, rfl, rfl, Or.inl rfl⟩⟩
+    · cases h; exact ⟨rfl, rfl, rfl, Or.inl ⟨_, rfl, rfl, rfl, Or.inl rfl⟩⟩
     · split at h
-      · cases h; exact ⟨rfl, rfl, rfl, Or.inl ⟨_, rfl, rfl, Or.inr ⟨rfl, Or.inl ⟨c, onClose, rfl⟩⟩⟩⟩
+      · cases h; exact ⟨rfl, rfl, rfl, Or.inl ⟨_, rfl, rfl, rfl, Or.inr ⟨rfl, Or.inl ⟨c, onClose, rfl⟩⟩⟩⟩
       · split at h
-        · cases h; exact ⟨rfl, rfl, rfl, Or.inl ⟨_, rfl, rfl, Or.inr ⟨rfl, Or.inl ⟨c, onClose, rfl⟩⟩⟩⟩
+        · cases h; exact ⟨rfl, rfl, rfl, Or.inl ⟨_, rfl, rfl, rfl, Or.inr ⟨rfl, Or.inl ⟨c, onClose, rfl⟩⟩⟩⟩
         · cases h
   | endCall k =>
     simp only [doAct, Option.some.injEq] at h; subst h
-    exact ⟨rfl, rfl, rfl, Or.inl ⟨_, rfl, rfl, Or.inl rfl⟩⟩
+    exact ⟨rfl, rfl, rfl, Or.inl ⟨_, rfl, rfl, rfl, Or.inl rfl⟩⟩
 
 /-- messages waiting to be taken, oldest first -/
 def waiting (s : State) : List Msg := s.queue ++ s.hand.toList
@@ -773,7 +773,7 @@ theorem invW_step (s : State) (ev : Event) (ic : InvC s) (inv : InvW s) : InvW (
                   simp only [setLoop, hne, if_false] at h1
                   exact inv.alive lp' h1 h2
             · obtain ⟨c1, c2, c3, hc⟩ := doAct_cases s l lp act rest s' hs' hrep
-              rcases hc with ⟨lp', hloops, hpc', hprog⟩ | ⟨hloops, key, n, hact⟩
+              rcases hc with ⟨lp', hloops, hpc', _, hprog⟩ | ⟨hloops, key, n, hact⟩
               · constructor
                 · exact hmsgs
                 · intro lp'' h1 h2
@@ -968,7 +968,7 @@ theorem head_taken : ∀ (k : Nat) (s : State), measure s ≤ k → InvC s → I
               rw [t2, t1]
               simp [setLoop, idleLoop]
             · obtain ⟨c1, _, _, hc⟩ := doAct_cases s s.current lp act rest' s1 hdo hrep
-              rcases hc with ⟨lp', hloops, hpc', hprog⟩ | ⟨_, key, n, hact⟩
+              rcases hc with ⟨lp', hloops, hpc', _, hprog⟩ | ⟨_, key, n, hact⟩
               · unfold measure
                 rw [c1, hloops]
                 simp only [if_true, hpc', hrun]
@@ -986,5 +986,413 @@ theorem head_taken : ∀ (k : Nat) (s : State), measure s ≤ k → InvC s → I
     · -- already at its select
       have hm0 : measure s ≤ 0 := by simp [measure, hlp, hrun]
       exact head_taken_zero s hm0 ic iw hopen m rest hw
+
+/-! ### Accounting across loop replacement -/
+
+/-- (A) a loop holds a message only while it runs a handler; what a loop holds has been taken and is not finished; no
+    message is held by two loops; every taken message is finished or held by a loop — whether that loop is still the
+    current one or has been replaced; nothing finishes twice -/
+structure InvA (s : State) : Prop where
+  idle : ∀ l lp, s.loops l = some lp → lp.pc ≠ .running → lp.cur = none
+  curS : ∀ l lp m, s.loops l = some lp → lp.cur = some m → m ∈ s.started ∧ m ∉ s.finished
+  uniq : ∀ l l' lp lp' m, s.loops l = some lp → s.loops l' = some lp' → lp.cur = some m → lp'.cur = some m → l = l'
+  fin : ∀ m ∈ s.finished, m ∈ s.started
+  acc : ∀ m ∈ s.started, m ∈ s.finished ∨ ∃ l lp, s.loops l = some lp ∧ lp.cur = some m
+  finNd : s.finished.Nodup
+
+/-- loops keep what they hold; new loops hold nothing and stand at their select -/
+structure CurPres (s s' : State) : Prop where
+  fwd : ∀ i lp, s.loops i = some lp → ∃ lp', s'.loops i = some lp' ∧ lp'.cur = lp.cur
+  bwd : ∀ i lp', s'.loops i = some lp' →
+    (∃ lp, s.loops i = some lp ∧ lp'.cur = lp.cur ∧ lp'.pc = lp.pc) ∨ (lp'.cur = none ∧ lp'.pc = .atSelect)
+
+theorem invA_of_curPres (s s' : State) (cp : CurPres s s') (hs : s'.started = s.started) (hf : s'.finished = s.finished)
+    (inv : InvA s) : InvA s' := by
+  constructor
+  · intro l lp' hl hp
+    rcases cp.bwd l lp' hl with ⟨lp, h1, h2, h3⟩ | ⟨h, _⟩
+    · rw [h2]; exact inv.idle l lp h1 (by rw [← h3]; exact hp)
+    · exact h
+  · intro l lp' m hl hc
+    rw [hs, hf]
+    rcases cp.bwd l lp' hl with ⟨lp, h1, h2, _⟩ | ⟨h, _⟩
+    · exact inv.curS l lp m h1 (by rw [← h2]; exact hc)
+    · rw [h] at hc; cases hc
+  · intro l l' lp1 lp2 m h1 h2 c1 c2
+    rcases cp.bwd l lp1 h1 with ⟨a, a1, a2, _⟩ | ⟨h, _⟩
+    · rcases cp.bwd l' lp2 h2 with ⟨b, b1, b2, _⟩ | ⟨h, _⟩
+      · exact inv.uniq l l' a b m a1 b1 (by rw [← a2]; exact c1) (by rw [← b2]; exact c2)
+      · rw [h] at c2; cases c2
+    · rw [h] at c1; cases c1
+  · rw [hs, hf]; exact inv.fin
+  · intro m hm
+    rw [hs] at hm; rw [hf]
+    rcases inv.acc m hm with h | ⟨l, lp, h1, h2⟩
+    · exact Or.inl h
+    · obtain ⟨lp', g1, g2⟩ := cp.fwd l lp h1
+      exact Or.inr ⟨l, lp', g1, by rw [g2]; exact h2⟩
+  · rw [hf]; exact inv.finNd
+
+theorem curPres_refl (s s' : State) (h : s'.loops = s.loops) : CurPres s s' :=
+  ⟨fun i lp hl => ⟨lp, by rw [h]; exact hl, rfl⟩, fun i lp' hl => Or.inl ⟨lp', by rw [← h]; exact hl, rfl, rfl⟩⟩
+
+theorem curPres_trans (a b c : State) (h1 : CurPres a b) (h2 : CurPres b c) : CurPres a c := by
+  constructor
+  · intro i lp hl
+    obtain ⟨lp1, g1, g2⟩ := h1.fwd i lp hl
+    obtain ⟨lp2, k1, k2⟩ := h2.fwd i lp1 g1
+    exact ⟨lp2, k1, k2.trans g2⟩
+  · intro i lp' hl
+    rcases h2.bwd i lp' hl with ⟨lp1, g1, g2, g3⟩ | h
+    · rcases h1.bwd i lp1 g1 with ⟨lp0, k1, k2, k3⟩ | ⟨k1, k2⟩
+      · exact Or.inl ⟨lp0, k1, g2.trans k2, g3.trans k3⟩
+      · exact Or.inr ⟨g2.trans k1, g3.trans k2⟩
+    · exact Or.inr h
+
+/-- replacing one loop's record by one with the same `cur` and `pc` -/
+theorem curPres_setLoop (s : State) (l : Nat) (lp lp' : Loop) (hl : s.loops l = some lp) (hc : lp'.cur = lp.cur)
+    (hp : lp'.pc = lp.pc) : CurPres s (setLoop s l lp') := by
+  constructor
+  · intro i lpi hi
+    by_cases e : i = l
+    · subst e; rw [hl] at hi; cases hi; exact ⟨lp', by simp [setLoop], hc⟩
+    · exact ⟨lpi, by simp [setLoop, e, hi], rfl⟩
+  · intro i lpi hi
+    by_cases e : i = l
+    · subst e; simp [setLoop] at hi; subst hi; exact Or.inl ⟨lp, hl, hc, hp⟩
+    · simp [setLoop, e] at hi; exact Or.inl ⟨lpi, hi, rfl, rfl⟩
+
+/-- **`TryToReplaceLoop` moves no message**: the replaced loop keeps the message it is processing, the new loop starts
+    empty, queue and hand are untouched (`tryReplace_qview`). -/
+theorem curPres_tryReplace (s : State) (ic : InvC s) : CurPres s (tryReplace s) := by
+  obtain ⟨cur, hcur, _⟩ := ic.cur
+  cases hr : cur.reading
+  · obtain ⟨e1, _, _, _⟩ := tryReplace_busy s cur hcur hr
+    have hn : s.loops s.nloops = none := ic.fresh _ (Nat.le_refl _)
+    constructor
+    · intro i lp hl
+      rw [e1]
+      by_cases h1 : i = s.nloops
+      · rw [h1, hn] at hl; cases hl
+      · by_cases h2 : i = s.current
+        · rw [h2, hcur] at hl; cases hl
+          have h1' : s.current ≠ s.nloops := by rw [← h2]; exact h1
+          exact ⟨{ cur with doneClosed := true }, by simp [h2, h1'], rfl⟩
+        · exact ⟨lp, by simp [h1, h2, hl], rfl⟩
+    · intro i lp' hl
+      rw [e1] at hl
+      by_cases h1 : i = s.nloops
+      · simp only [h1, if_true] at hl; cases hl; exact Or.inr ⟨rfl, rfl⟩
+      · simp only [h1, if_false] at hl
+        by_cases h2 : i = s.current
+        · simp only [h2, if_true] at hl; cases hl
+          exact Or.inl ⟨cur, by rw [h2]; exact hcur, rfl, rfl⟩
+        · simp only [h2, if_false] at hl; exact Or.inl ⟨lp', hl, rfl, rfl⟩
+  · rw [tryReplace_reading s cur hcur hr]; exact curPres_refl s s rfl
+
+theorem doAct_curPres (s : State) (l : Nat) (lp : Loop) (act : Act) (rest : List Act) (s' : State)
+    (hl : s.loops l = some lp) (h : doAct s l lp act rest = some s') (ic : InvC s) :
+    CurPres s s' ∧ s'.started = s.started ∧ s'.finished = s.finished := by
+  have hq := doAct_qview s l lp act rest s' h
+  have hst : s'.started = s.started := by simp only [qview, QView.mk.injEq] at hq; exact hq.2.1
+  by_cases hrep : act = .replace
+  · subst hrep
+    simp only [doAct, Option.some.injEq] at h; subst h
+    have c1 : CurPres s (setLoop s l { lp with prog := rest }) := curPres_setLoop s l lp _ hl rfl rfl
+    have ic1 : InvC (setLoop s l { lp with prog := rest }) :=
+      invC_setLoop s l lp { lp with prog := rest } hl rfl (ic.flag l lp hl) ic
+    have hfin : (tryReplace (setLoop s l { lp with prog := rest })).finished = s.finished := by
+      unfold tryReplace; split
+      · split <;> rfl
+      · rfl
+    exact ⟨curPres_trans _ _ _ c1 (curPres_tryReplace _ ic1), hst, hfin⟩
+  · obtain ⟨_, _, _, hc⟩ := doAct_cases s l lp act rest s' h hrep
+    have hfin : s'.finished = s.finished := by
+      cases act with
+      | replace => exact absurd rfl hrep
+      | startCall k d => simp only [doAct, Option.some.injEq] at h; subst h; rfl
+      | acquire key limit =>
+        simp only [doAct] at h
+        split at h
+        · cases h; rfl
+        · split at h
+          · cases h; rfl
+          · split at h
+            · cases h; rfl
+            · split at h
+              · cases h; rfl
+              · cases h
+      | send k => simp only [doAct, Option.some.injEq] at h; subst h; rfl
+      | wait c b =>
+        simp only [doAct] at h
+        split at h
+        · cases h; rfl
+        · split at h
+          · cases h; rfl
+          · split at h
+            · cases h; rfl
+            · cases h
+      | endCall k => simp only [doAct, Option.some.injEq] at h; subst h; rfl
+    refine ⟨?_, hst, hfin⟩
+    rcases hc with ⟨lp', hloops, hpc', hcur', _⟩ | ⟨hloops, _⟩
+    · constructor
+      · intro i lpi hi
+        rw [hloops]
+        by_cases e : i = l
+        · subst e; rw [hl] at hi; cases hi; exact ⟨lp', by simp, hcur'⟩
+        · exact ⟨lpi, by simp [e, hi], rfl⟩
+      · intro i lpi hi
+        rw [hloops] at hi
+        by_cases e : i = l
+        · subst e; simp at hi; subst hi; exact Or.inl ⟨lp, hl, hcur', hpc'⟩
+        · simp [e] at hi; exact Or.inl ⟨lpi, hi, rfl, rfl⟩
+    · exact curPres_refl s s' hloops
+
+theorem invA_step (s : State) (ev : Event) (iq : InvQ s) (ic : InvC s) (inv : InvA s) : InvA (step s ev) := by
+  cases ev with
+  | feederRead =>
+    rw [step]
+    split
+    · rename_i m rest _ _
+      dsimp only
+      have hv : ∀ (s0 : State), (inlinePart s0 m).loops = s0.loops ∧ (inlinePart s0 m).started = s0.started ∧
+          (inlinePart s0 m).finished = s0.finished := by
+        intro s0; unfold inlinePart; split <;> (try split) <;> exact ⟨rfl, rfl, rfl⟩
+      obtain ⟨a, b, c⟩ := hv { s with inbox := rest }
+      split
+      · exact invA_of_curPres s _ (curPres_refl _ _ a) b c inv
+      · exact invA_of_curPres s _ (curPres_refl _ _ a) b c inv
+    · exact inv
+  | feederPush =>
+    rw [step]
+    split
+    · split
+      · exact invA_of_curPres s _ (curPres_refl _ _ rfl) rfl rfl inv
+      · split
+        · exact invA_of_curPres s _ (curPres_refl _ _ rfl) rfl rfl inv
+        · exact inv
+    · exact inv
+  | loopTake l =>
+    rw [step]
+    split
+    · rename_i lp hl
+      split
+      · rename_i hpc
+        dsimp only
+        have hd : ∀ (s0 : State) (x : Msg), (dispatch s0 x).loops = s0.loops ∧ (dispatch s0 x).started = s0.started ∧
+            (dispatch s0 x).finished = s0.finished := by
+          intro s0 x; unfold dispatch; split <;> (try split) <;> exact ⟨rfl, rfl, rfl⟩
+        have hidle : lp.cur = none := inv.idle l lp hl (by rw [hpc]; intro e; cases e)
+        -- taking a message that is neither started nor finished
+        have take : ∀ (s0 : State) (m : Msg), s0.loops = s.loops → s0.started = s.started ++ [m] → s0.finished = s.finished →
+            m ∉ s.started →
+            InvA (setLoop (dispatch s0 m) l { lp with reading := false, pc := .running, cur := some m, prog := progOf m.kind }) := by
+          intro s0 m e1 e2 e3 hnew
+          obtain ⟨a, b, c⟩ := hd s0 m
+          have hnf : m ∉ s.finished := fun h => hnew (inv.fin m h)
+          constructor
+          · intro i lpi hi hp
+            simp only [setLoop] at hi
+            split at hi
+            · cases hi; exact absurd rfl hp
+            · rw [a, e1] at hi; exact inv.idle i lpi hi hp
+          · intro i lpi x hi hc
+            show x ∈ (dispatch s0 m).started ∧ x ∉ (dispatch s0 m).finished
+            rw [b, c, e2, e3]
+            simp only [setLoop] at hi
+            split at hi
+            · cases hi; simp at hc; subst hc
+              exact ⟨by simp, hnf⟩
+            · rw [a, e1] at hi
+              obtain ⟨g1, g2⟩ := inv.curS i lpi x hi hc
+              exact ⟨by simp [g1], g2⟩
+          · intro i j lpi lpj x hi hj ci cj
+            simp only [setLoop] at hi hj
+            split at hi
+            · rename_i ei
+              split at hj
+              · rename_i ej; rw [ei, ej]
+              · cases hi; simp at ci; subst ci
+                rw [a, e1] at hj
+                exact absurd (inv.curS j lpj _ hj cj).1 hnew
+            · split at hj
+              · cases hj; simp at cj; subst cj
+                rw [a, e1] at hi
+                exact absurd (inv.curS i lpi _ hi ci).1 hnew
+              · rw [a, e1] at hi hj; exact inv.uniq i j lpi lpj x hi hj ci cj
+          · intro x hx
+            show x ∈ (dispatch s0 m).started
+            have hx' : x ∈ (dispatch s0 m).finished := hx
+            rw [c, e3] at hx'; rw [b, e2]; simp [inv.fin x hx']
+          · intro x hx
+            have hx' : x ∈ (dispatch s0 m).started := hx
+            rw [b, e2] at hx'
+            show x ∈ (dispatch s0 m).finished ∨ _
+            rw [c, e3]
+            rcases List.mem_append.mp hx' with h | h
+            · rcases inv.acc x h with g | ⟨i, lpi, g1, g2⟩
+              · exact Or.inl g
+              · right
+                have hil : i ≠ l := by
+                  intro e; subst e; rw [hl] at g1; cases g1; rw [hidle] at g2; cases g2
+                exact ⟨i, lpi, by simp [setLoop, hil, a, e1, g1], g2⟩
+            · simp at h; subst h
+              exact Or.inr ⟨l, { lp with reading := false, pc := .running, cur := some x, prog := progOf x.kind }, by simp [setLoop], rfl⟩
+          · show (dispatch s0 m).finished.Nodup
+            rw [c, e3]; exact inv.finNd
+        have hwire : s.accepted.Nodup := (List.nodup_append.mp iq.wire).1
+        rw [iq.fifo] at hwire
+        split
+        · rename_i m q hq
+          apply take { s with queue := q, started := s.started ++ [m], log := s.log ++ [.start m.id] } m rfl rfl rfl
+          rw [hq] at hwire
+          simp only [List.append_assoc] at hwire
+          have := (List.nodup_append.mp hwire).2.2
+          intro hin
+          exact this m hin m (by simp) rfl
+        · rename_i hq
+          split
+          · rename_i m hh
+            apply take { s with hand := none, started := s.started ++ [m], log := s.log ++ [.start m.id] } m rfl rfl rfl
+            rw [hq, hh] at hwire
+            simp only [List.append_assoc] at hwire
+            have := (List.nodup_append.mp hwire).2.2
+            intro hin
+            exact this m hin m (by simp) rfl
+          · exact inv
+      · exact inv
+    · exact inv
+  | loopExit l =>
+    rw [step]
+    split
+    · rename_i lp hl
+      split
+      · rename_i hc
+        have hpc : lp.pc = .atSelect := by
+          simp only [Bool.and_eq_true, decide_eq_true_eq] at hc; exact hc.1
+        have hidle : lp.cur = none := inv.idle l lp hl (by rw [hpc]; intro e; cases e)
+        constructor
+        · intro i lpi hi hp
+          simp only [setLoop] at hi
+          split at hi
+          · cases hi; exact hidle
+          · exact inv.idle i lpi hi hp
+        · intro i lpi x hi hcx
+          simp only [setLoop] at hi
+          split at hi
+          · cases hi; rw [hidle] at hcx; cases hcx
+          · exact inv.curS i lpi x hi hcx
+        · intro i j lpi lpj x hi hj ci cj
+          simp only [setLoop] at hi hj
+          split at hi
+          · cases hi; rw [hidle] at ci; cases ci
+          · split at hj
+            · cases hj; rw [hidle] at cj; cases cj
+            · exact inv.uniq i j lpi lpj x hi hj ci cj
+        · exact inv.fin
+        · intro x hx
+          rcases inv.acc x hx with g | ⟨i, lpi, g1, g2⟩
+          · exact Or.inl g
+          · right
+            have hil : i ≠ l := by
+              intro e; subst e; rw [hl] at g1; cases g1; rw [hidle] at g2; cases g2
+            exact ⟨i, lpi, by simp [setLoop, hil, g1], g2⟩
+        · exact inv.finNd
+      · exact inv
+    · exact inv
+  | handlerStep l =>
+    rw [step]
+    split
+    · rename_i lp hl
+      split
+      · rename_i hpc
+        split
+        · split
+          · rename_i m hm
+            -- the handler returned: the message moves from the loop to `finished`
+            obtain ⟨hms, hmf⟩ := inv.curS l lp m hl hm
+            constructor
+            · intro i lpi hi hp
+              simp only [setLoop] at hi
+              split at hi
+              · cases hi; rfl
+              · exact inv.idle i lpi hi hp
+            · intro i lpi x hi hcx
+              simp only [setLoop] at hi
+              split at hi
+              · cases hi; cases hcx
+              · rename_i hil
+                obtain ⟨g1, g2⟩ := inv.curS i lpi x hi hcx
+                refine ⟨g1, ?_⟩
+                show x ∉ s.finished ++ [m]
+                intro hin
+                rcases List.mem_append.mp hin with h | h
+                · exact g2 h
+                · simp at h; subst h
+                  exact hil (inv.uniq i l lpi lp x hi hl hcx hm)
+            · intro i j lpi lpj x hi hj ci cj
+              simp only [setLoop] at hi hj
+              split at hi
+              · cases hi; cases ci
+              · split at hj
+                · cases hj; cases cj
+                · exact inv.uniq i j lpi lpj x hi hj ci cj
+            · intro x hx
+              have hx' : x ∈ s.finished ++ [m] := hx
+              rcases List.mem_append.mp hx' with h | h
+              · exact inv.fin x h
+              · simp at h; subst h; exact hms
+            · intro x hx
+              show x ∈ s.finished ++ [m] ∨ _
+              rcases inv.acc x hx with g | ⟨i, lpi, g1, g2⟩
+              · exact Or.inl (by simp [g])
+              · by_cases hil : i = l
+                · subst hil; rw [hl] at g1; cases g1; rw [hm] at g2; cases g2
+                  exact Or.inl (by simp)
+                · exact Or.inr ⟨i, lpi, by simp [setLoop, hil, g1], g2⟩
+            · show (s.finished ++ [m]).Nodup
+              rw [List.nodup_append]
+              refine ⟨inv.finNd, by simp, ?_⟩
+              intro a ha b hb
+              simp at hb; subst hb
+              intro e; subst e; exact hmf ha
+          · rename_i hm
+            -- (a running loop always holds a message in reachable states; the branch is kept total)
+            refine invA_of_curPres s _ ⟨?_, ?_⟩ rfl rfl inv
+            · intro i lpi hi
+              by_cases e : i = l
+              · subst e; rw [hl] at hi; cases hi
+                exact ⟨{ lp with reading := true, pc := .atSelect }, by simp [setLoop], rfl⟩
+              · exact ⟨lpi, by simp [setLoop, e, hi], rfl⟩
+            · intro i lpi hi
+              by_cases e : i = l
+              · subst e; simp [setLoop] at hi; subst hi; exact Or.inr ⟨hm, rfl⟩
+              · simp [setLoop, e] at hi; exact Or.inl ⟨lpi, hi, rfl, rfl⟩
+        · rename_i act rest hp
+          split
+          · rename_i s' hs'
+            obtain ⟨cp, e1, e2⟩ := doAct_curPres s l lp act rest s' hl hs' ic
+            exact invA_of_curPres s s' cp e1 e2 inv
+          · exact inv
+      · exact inv
+    · exact inv
+  | tick dt => rw [step]; exact invA_of_curPres s _ (curPres_refl _ _ rfl) rfl rfl inv
+  | close => rw [step]; exact invA_of_curPres s _ (curPres_refl _ _ rfl) rfl rfl inv
+
+theorem invA_init (cap : Nat) (udp : Bool) (inbox : List Msg) : InvA (init cap udp inbox) := by
+  constructor
+  · intro l lp hl _; simp only [init] at hl; split at hl <;> cases hl; rfl
+  · intro l lp m hl hc; simp only [init] at hl; split at hl <;> cases hl; cases hc
+  · intro l l' lp lp' m hl _ hc _; simp only [init] at hl; split at hl <;> cases hl; cases hc
+  · intro m hm; simp [init] at hm
+  · intro m hm; simp [init] at hm
+  · simp [init]
+
+theorem invQCA_run (s : State) (evs : List Event) (iq : InvQ s) (ic : InvC s) (ia : InvA s) :
+    InvQ (run s evs) ∧ InvC (run s evs) ∧ InvA (run s evs) := by
+  unfold run
+  induction evs generalizing s with
+  | nil => exact ⟨iq, ic, ia⟩
+  | cons e es ih => exact ih _ (invQ_step s e iq) (invC_step s e ic) (invA_step s e iq ic ia)
 
 end CoapVerif.Lemmas.Reader
